@@ -16,7 +16,9 @@ MISUSE = ["kwonly_param__ARGS", "kwonly_param__KWARGS", "varkw_param__KWARGS", "
           "disabled_error_int", "disabled_error_callable_object", "disabled_invariant_extra_param",
           "disabled_invariant_coroutine_condition", "disabled_snapshot_no_params", "disabled_snapshot_two_params",
           # the reserved names of postconditions as variadic parameters
-          "varpos_param_result_with_post", "varkw_param_OLD_with_post"]
+          "varpos_param_result_with_post", "varkw_param_OLD_with_post",
+          # the reserved keyword passed to a function WITHOUT **kwargs: still rejected by the library before anything is evaluated
+          "kwarg__ARGS_at_call_no_varkw_violated", "kwarg__KWARGS_at_call_no_varkw_condition_reads_it"]
 DECOS = ["require", "ensure", "invariant"]
 TARGETS = ["function", "async_function", "method", "staticmethod", "classmethod", "property_getter"]
 
@@ -94,6 +96,27 @@ def _check(m: str, deco: str, target: str) -> Tuple[str, bool]:
             ok = name in str(err)
             # ... and an ordinary call still works
             return "TypeError at call", ok and run(call, 1, other=2) == "res"
+        return "accepted", False
+    if m in ("kwarg__ARGS_at_call_no_varkw_violated", "kwarg__KWARGS_at_call_no_varkw_condition_reads_it"):
+        if deco == "invariant" or target == "property_getter":
+            return "n/a", True
+        seen = []  # type: List[Any]
+        bare = _mk(sp + "x", is_async)
+        if m == "kwarg__ARGS_at_call_no_varkw_violated":
+            name = "_ARGS"
+            cond = lambda x: (seen.append("cond"), x > 0)[1]  # noqa: E731
+        else:
+            name = "_KWARGS"
+            cond = lambda _KWARGS: (seen.append(_KWARGS), True)[1]  # noqa: E731
+        f = (icontract.require if deco == "require" else icontract.ensure)(cond, error=lambda: Tag("violated"))(bare)
+        _, call = _wrap_target(f, target)
+        try:
+            run(call, -1, **{name: "spoofed"})
+        except TypeError as err:
+            # the library's own rejection, before any condition saw anything
+            return "TypeError at call", name in str(err) and "unexpected keyword" not in str(err) and not seen
+        except Tag:
+            return "the violation was reported instead", False
         return "accepted", False
     if m in ("param_result_with_post", "param_OLD_with_post"):
         if deco != "ensure" or target == "property_getter":
